@@ -75,6 +75,13 @@ def run(tier, seed):
             s.roots_mode = ("rp", "none", "several")[i % 3] if fmt in ("packed", "fido-u2f", "tpm") else (("rp", "extra-unrelated", "rp-only")[i % 3] if fmt in regsim.X5C_FORMATS else "rp")
             if fmt == "tpm":
                 s.k["tpm_name_alg"] = ("SHA256", "SHA1", "SHA384", "SHA512")[i % 4]
+            # the attestation object in any of the encodings CBOR allows for the same value (member order, indefinite lengths, wider length fields), and a credential
+            # key with further (ignored) COSE members
+            s.k["ao_style"] = cborgen.AO_STYLES[i % len(cborgen.AO_STYLES)]
+            if i % 6 == 4 and fmt in ("none", "packed-self", "packed"):
+                cm = dict(authsim.Cred(kind).cose_map())
+                cm.update({2: b"key-id", 4: [1, 2]} if i % 12 == 4 else {-70000: b"vendor", "note": "x"})
+                s.k["cose_bytes"] = cbor2.dumps(cm)
             pd, reg = regsim.build(s)
             if i % 6 == 3 and pd.get("roots"):
                 # the same anchors in other admissible PEM spellings (leading newline, comment / `openssl x509` preamble, CRLF, trailing text)
@@ -85,7 +92,7 @@ def run(tier, seed):
             reg.client_ext = CLIENT_EXT[i % len(CLIENT_EXT)]
             cred = authsim.Cred(kind)
             aag = bytes(16) if fmt == "fido-u2f" else s.aaguid
-            exp = expected_reg_line(s, reg, pd, cred.cose_bytes, aag)
+            exp = expected_reg_line(s, reg, pd, s.k.get("cose_bytes", cred.cose_bytes), aag)
             form = regrun.FORMS[i % 3]
             il, ml = B.run_case(regrun.policy_of(pd), reg, form, "accept", f"conformant/{fmt}", scn=s)
             if il.startswith("OK") and il != exp:
